@@ -212,6 +212,16 @@ func (batch *kvBatch) put(key []byte, history *types.ValueUpdateHistory) error {
 			//check not found
 			log.Info("read size err", zap.Error(err))
 		}
+		// A block is executed again after a crash that hit before the application recorded it as
+		// committed; its updates must not be appended a second time.  Entries already stored for this
+		// (or a later) block height are overwritten instead.
+		for size > 0 {
+			last, gerr := batch.KeyValueHistoryManager.get(key, size-1)
+			if gerr != nil || last.BlockHeight < history.BlockHeight {
+				break
+			}
+			size--
+		}
 	}
 	err = batch.putHistory(key, size, history)
 	if err != nil {
